@@ -14,7 +14,7 @@
 //		script = list of ops  [1 k v] Header().Set(k,v)   [2 k v] Header().Add(k,v)   [3 code] WriteHeader(code)
 //		                      [4 bytes rep] Write(bytes repeated rep times)            [5] Flush()
 //
-// output: [frames results]
+// output: [frames results blocks]   blocks = for every header block its HEADERS/CONTINUATION fragments [[length END_HEADERS] ...]
 //
 //	  frames  = list of  [1 end [[name value] ...]] (HEADERS, CONTINUATION merged)  |  [2 end bytes] (DATA)
 //	                     |  [3 code] (RST_STREAM)
@@ -53,7 +53,7 @@ func decodeScript(v hv.Val) []op {
 		l := hv.AsList(e)
 		o := op{tag: int(hv.AsInt(l[0]))}
 		switch o.tag {
-		case 1, 2:
+		case 1, 2, 6:
 			o.k, o.v = hv.AsStr(l[1]), hv.AsStr(l[2])
 		case 3:
 			o.code = int(hv.AsInt(l[1]))
@@ -108,6 +108,9 @@ func impl(in hv.Val) hv.Val {
 				results = append(results, hv.Bool(err != nil))
 			case 5:
 				w.(bfe_http.Flusher).Flush()
+			case 6: // direct map access: the key is stored as given
+				h := w.Header()
+				h[o.k] = append(h[o.k], o.v)
 			}
 		}
 	})
@@ -121,6 +124,7 @@ func impl(in hv.Val) hv.Val {
 
 	// reader: collects the frames of stream 1, signals PING acks
 	var frames hv.L
+	blocks := hv.L{} // per header block: its HEADERS/CONTINUATION fragments
 	pong := make(chan bool, 4)
 	rdone := make(chan bool, 1)
 	go func() {
@@ -135,11 +139,16 @@ func impl(in hv.Val) hv.Val {
 			fields = append(fields, hv.L{hv.S(f.Name), hv.S(v)})
 			return nil
 		})
-		var hdrEnd, fragBad bool
+		var hdrEnd bool
+		var curFrags hv.L // fragments [length END_HEADERS] of the header block being received
 		win := flowW
 		for {
 			f, err := fr.ReadFrame()
 			if err != nil {
+				if len(curFrags) > 0 { // a header block that was never terminated: report what arrived
+					frames = append(frames, hv.L{hv.I(1), hv.Bool(hdrEnd), fields})
+					blocks = append(blocks, curFrags)
+				}
 				return
 			}
 			switch f := f.(type) {
@@ -151,21 +160,19 @@ func impl(in hv.Val) hv.Val {
 				fields = hv.L{}
 				hdrEnd = f.StreamEnded()
 				dec.Write(f.HeaderBlockFragment())
-				fragBad = fragCheck(len(f.HeaderBlockFragment()), f.HeadersEnded())
+				curFrags = hv.L{hv.L{hv.I(len(f.HeaderBlockFragment())), hv.Bool(f.HeadersEnded())}}
 				if f.HeadersEnded() {
 					frames = append(frames, hv.L{hv.I(1), hv.Bool(hdrEnd), fields})
-					if fragBad {
-						frames = append(frames, hv.L{hv.I(9), hv.I(1)})
-					}
+					blocks = append(blocks, curFrags)
+					curFrags = nil
 				}
 			case *bfe_http2.ContinuationFrame:
 				dec.Write(f.HeaderBlockFragment())
-				fragBad = fragCheck(len(f.HeaderBlockFragment()), f.HeadersEnded()) || fragBad
+				curFrags = append(curFrags, hv.L{hv.I(len(f.HeaderBlockFragment())), hv.Bool(f.HeadersEnded())})
 				if f.HeadersEnded() {
 					frames = append(frames, hv.L{hv.I(1), hv.Bool(hdrEnd), fields})
-					if fragBad {
-						frames = append(frames, hv.L{hv.I(9), hv.I(1)})
-					}
+					blocks = append(blocks, curFrags)
+					curFrags = nil
 				}
 			case *bfe_http2.DataFrame:
 				frames = append(frames, hv.L{hv.I(2), hv.Bool(f.StreamEnded()), hv.B(append([]byte{}, f.Data()...))})
@@ -223,27 +230,22 @@ func impl(in hv.Val) hv.Val {
 	wbuf.Reset()
 	cfr.WritePing(false, [8]byte{1, 2, 3, 4, 5, 6, 7, 8})
 	cli.Write(wbuf.Bytes())
+	readerDone := false
 	select {
 	case <-pong:
+	case <-rdone: // the reader gave up (protocol error, e.g. a header block without END_HEADERS): report what it has
+		readerDone = true
 	case <-time.After(2 * time.Second):
 		return hv.Err(2)
 	}
 	cli.Close()
-	<-rdone
+	if !readerDone {
+		<-rdone
+	}
 	if !streamClosed {
 		return hv.L{frames, results, hv.I(0)}
 	}
-	return hv.L{frames, results}
-}
-
-// fragCheck reports a header block fragment that splitHeaderBlock would not produce: every fragment but the last is
-// exactly 16384 bytes, the last one is 1..16384 bytes.  (The HPACK size of a block is not modelled, so the
-// fragmentation is checked here and reported as a pseudo frame [9 1], which the model never produces.)
-func fragCheck(n int, last bool) bool {
-	if last {
-		return n < 1 || n > 16384
-	}
-	return n != 16384
+	return hv.L{frames, results, blocks}
 }
 
 // ---- generator
@@ -263,7 +265,7 @@ var hopKeys = []string{"Connection", "connection", "Keep-Alive", "Proxy-Connecti
 var specialKeys = []string{"Content-Length", "content-length", "Content-Type", "Date", "Trailer"}
 var badKeys = []string{"bad key", "", "a:b", "X(1)", "caf\x7f", "x\ty", "\u212aeep-Alive", "\u212aeep-alive", "caf\u00c9", "X-\xff", "\u212a"}
 var trailerNames = []string{"Foo", "bar", "Grpc-Status", "grpc-message", "X-Md5", "Zz", "X-T1", "x-t2"}
-var statuses = []int{200, 200, 200, 201, 204, 304, 404, 500, 301, 206, 100, 101, 199, 299, 999}
+var statuses = []int{200, 200, 200, 201, 203, 204, 205, 303, 304, 305, 404, 500, 301, 206, 100, 101, 199, 299, 999}
 var clens = []string{"0", "1", "5", "10", "100", "4096", "-1", "-0", "+7", "abc", "", "12x", " 3", "9223372036854775807", "9223372036854775808", "007"}
 
 func genValue(r *hv.Rng) string {
@@ -291,7 +293,18 @@ func genValue(r *hv.Rng) string {
 	return string(b)
 }
 
+var rawKeys = []string{"connection", "keep-alive", "transfer-encoding", "upgrade", "proxy-connection", "CONNECTION", "Transfer-encoding",
+	"content-length", "content-type", "date", "trailer", "x-raw", "X-Raw", "X-A", "foo", "Foo", "te"}
+
 func genHeaderOp(r *hv.Rng, afterCommit bool) hv.Val {
+	if r.Chance(1, 8) { // direct map access with a non-canonical (or canonical) key
+		k := r.Pick(rawKeys)
+		v := genValue(r)
+		if r.Chance(1, 3) {
+			v = r.Pick([]string{"trailers", "chunked", "close", "5", "Foo"})
+		}
+		return hv.L{hv.I(6), hv.S(k), hv.S(v)}
+	}
 	tag := 1 + r.Intn(2)
 	var k, v string
 	switch c := r.Intn(20); {
@@ -345,7 +358,86 @@ func genWrite(r *hv.Rng) hv.Val {
 	return hv.L{hv.I(4), hv.B(r.Bytes(r.Range(1, 40))), hv.I(1)}
 }
 
+// ---- header blocks of an exact encoded size (HEADERS/CONTINUATION boundaries)
+//
+// The response of these scripts has handler-set Date and Content-Type, so every field of the header block is known
+// here; the block is encoded with the same hpack encoder the server uses (fresh dynamic table: one connection per case)
+// and the length of one raw value (bytes whose Huffman code is longer than 8 bits, so the literal is never Huffman
+// coded) is tuned until the block has exactly the wanted size.
+var calibTargets = []int{16383, 16384, 16385, 32767, 32768, 32769}
+
+const calibDate = "Tue, 22 Sep 2026 00:00:00 GMT"
+
+func rawValue(r *hv.Rng, n int) string {
+	const alphabet = "~^`<{}|#$>"
+	b := make([]byte, n)
+	for i := range b {
+		b[i] = alphabet[r.Intn(len(alphabet))]
+	}
+	return string(b)
+}
+
+// calibrated returns the script whose response-header block (trailers = false) or trailer block (trailers = true) is
+// exactly target bytes long, or nil if the size cannot be reached (a length-prefix boundary).
+func calibrated(r *hv.Rng, target int, trailers bool) hv.L {
+	size := func(n int) int {
+		var buf bytes.Buffer
+		enc := hpack.NewEncoder(&buf)
+		w := func(k, v string) { enc.WriteField(hpack.HeaderField{Name: k, Value: v}) }
+		w(":status", "200")
+		w("content-type", "text/plain")
+		w("date", calibDate)
+		if trailers {
+			w("trailer", "X-T")
+		} else {
+			w("x-big", rawValue(hv.NewRng(1), n))
+		}
+		w("content-length", "2")
+		if !trailers {
+			return buf.Len()
+		}
+		first := buf.Len()
+		w("x-t", rawValue(hv.NewRng(1), n))
+		return buf.Len() - first
+	}
+	n := target - 64
+	for it := 0; it < 6 && size(n) != target; it++ {
+		n += target - size(n)
+		if n < 1 {
+			return nil
+		}
+	}
+	if size(n) != target {
+		return nil
+	}
+	sc := hv.L{
+		hv.L{hv.I(1), hv.S("Date"), hv.S(calibDate)},
+		hv.L{hv.I(1), hv.S("Content-Type"), hv.S("text/plain")},
+	}
+	if trailers {
+		sc = append(sc, hv.L{hv.I(1), hv.S("Trailer"), hv.S("X-T")}, hv.L{hv.I(4), hv.S("hi"), hv.I(1)},
+			hv.L{hv.I(1), hv.S("X-T"), hv.S(rawValue(r, n))})
+	} else {
+		sc = append(sc, hv.L{hv.I(1), hv.S("X-Big"), hv.S(rawValue(r, n))}, hv.L{hv.I(4), hv.S("hi"), hv.I(1)})
+	}
+	return sc
+}
+
 func gen(r *hv.Rng, i int, tier string) (string, hv.Val) {
+	if i < 2*len(calibTargets) { // every run: each boundary size once for the response headers and once for the trailers
+		target, trailers := calibTargets[i%len(calibTargets)], i >= len(calibTargets)
+		if sc := calibrated(r, target, trailers); sc != nil {
+			class := "hdr-block-"
+			if trailers {
+				class = "trailer-block-"
+			}
+			m := 0
+			if i%2 == 1 && !trailers {
+				m = 1 // HEAD answers carry the same header block
+			}
+			return class + strconv.Itoa(target), hv.L{hv.I(m), hv.I(bufsz), hop, sc}
+		}
+	}
 	method := 0
 	switch r.Intn(12) {
 	case 0, 1:
